@@ -528,10 +528,10 @@ class Transaction:
                         f"Failed to read manifest {manifest.manifest_path} during delete operation"
                     ) from e
 
+                deleted_normalized = {p.lstrip("/") for p in deleted_paths}
                 surviving_files = [
                     f for f in data_files
-                    if f.file_path not in deleted_paths
-                    and f.file_path.lstrip("/") not in deleted_paths
+                    if f.file_path.lstrip("/") not in deleted_normalized
                 ]
 
                 if len(surviving_files) == len(data_files):
